@@ -1,10 +1,10 @@
 SPECIFICATION MCSpec
 CONSTANTS
-  Actor = {"a", "b", "c", "x"}
+  Actor = {"a", "b", "c"}
   Creator = "a"
   Initial <- InitialABC
-  Kinds = {"add", "remove", "promote", "demote"}
-  AccessArgs <- ArgsPlain
+  Kinds = {"add", "promote", "demote"}
+  AccessArgs <- ArgsCond
   Replica = {}
   MaxOps = 3
   MaxRejected = 0
